@@ -752,11 +752,17 @@ class HfProtocol(utils.EventEmitter):
 
             # Isolate the AT response code and parameters.
             raw_response = self.read_buffer[header + 2 : trailer]
-            response = AtResponse.parse_from(raw_response)
-            logger.debug(f"<<< {raw_response.decode()}")
 
-            # Consume the response bytes.
+            # Consume the response bytes (first, so that a response that cannot be
+            # parsed does not stay in the way of the following ones).
             self.read_buffer = self.read_buffer[trailer + 2 :]
+
+            try:
+                response = AtResponse.parse_from(raw_response)
+                logger.debug(f"<<< {raw_response.decode()}")
+            except Exception:
+                logger.exception('Malformed AT response %r, dropped', raw_response)
+                continue
 
             # Forward the received code to the correct queue.
             if self.pending_command and (
@@ -1251,11 +1257,18 @@ class AgProtocol(utils.EventEmitter):
 
             # Isolate the AT response code and parameters.
             raw_command = self.read_buffer[:trailer]
-            command = AtCommand.parse_from(raw_command)
-            logger.debug(f"<<< {raw_command.decode()}")
 
-            # Consume the response bytes.
+            # Consume the command bytes (first, so that a command that cannot be
+            # parsed does not stay in the way of the following ones).
             self.read_buffer = self.read_buffer[trailer + 1 :]
+
+            try:
+                command = AtCommand.parse_from(raw_command)
+                logger.debug(f"<<< {raw_command.decode()}")
+            except Exception:
+                logger.exception('Malformed AT command %r', raw_command)
+                self.send_response('ERROR')
+                continue
 
             if command.sub_code == AtCommand.SubCode.TEST:
                 handler_name = f'_on_{command.code.lower()}_test'
